@@ -199,6 +199,14 @@ def rule_sgn0(fx, rep):
                     limbs = [KBits64(1, bit)] + [KBits64(0, 0) for _ in range(5)]
                     fr.storev(t['dest'], Agg([Agg(limbs)]) if on_self else TOP)
                     return True
+                if c.get('name') in ('is_odd', 'is_even') and c.get('trait') == 'ff::PrimeFieldRepr' and len(t['args']) == 1:
+                    # generated by the derive: parity of limb 0
+                    v = fr.deref_operand(t['args'][0])
+                    l0 = v.items[0].items[0] if isinstance(v, Agg) and v.items and isinstance(v.items[0], Agg) and v.items[0].items else None
+                    if isinstance(l0, KBits) and (l0.mask & 1):
+                        odd = l0.val & 1
+                        fr.storev(t['dest'], Int(odd if c['name'] == 'is_odd' else 1 - odd, 1))
+                        return True
                 return False
             I = exp.Interp(fx, 'none', extra_transfer=tr)
             res = I.run(p, [('byref', TOP)])
@@ -214,15 +222,11 @@ def rule_sgn0(fx, rep):
         rep.fn(p)
 
         def comp(fr, op):
-            ref = fr.res.operand_referent(op)
-            if ref and ref[0] == 'place' and ref[1]['l'] == 1:
-                fs = [e[1] for e in ref[1]['p'] if e[0] == 'f']
-                return fs[0] if len(fs) == 1 else None
-            v = fr.operand(op)
-            if isinstance(v, exp.Ref) and v.root == ('*', 1):
-                fs = [e[1] for e in v.proj if e[0] == 'f']
-                return fs[0] if len(fs) == 1 else None
-            return None
+            v = fr.deref_operand(op)
+            for _ in range(4):
+                if isinstance(v, exp.Ref):
+                    v = fr._project(fr.store.get(v.root, TOP), v.proj)
+            return int(v[1]) if isinstance(v, str) and len(v) == 2 and v[0] == 'c' and v[1] in '01' else None
 
         def tr(I, fr, t, c, pth):
             if c.get('name') == 'is_zero' and c.get('trait') == 'ff::Field':
@@ -232,19 +236,33 @@ def rule_sgn0(fx, rep):
                 fr.storev(t['dest'], ('sgn0_of', comp(fr, t['args'][0])))
                 return True
             return False
-        I = exp.Interp(fx, 'none', extra_transfer=tr)
-        res = I.run(p, [('byref', Agg(['c0', 'c1']))])
-        ok = len(res) == 2
-        why = '%d paths' % len(res)
-        for pth, ret, _ in res:
-            labs = [lab_name(l) for l in pth.labels]
-            if len(labs) != 1 or labs[0][0] != 'is_zero_c' or labs[0][2][1] != 0:
-                ok, why = False, 'branches on %r (expected is_zero of c0)' % (labs,)
-                continue
-            want = ('sgn0_of', 1) if labs[0][1] else ('sgn0_of', 0)
-            if ret != want:
-                ok, why = False, 'c0.is_zero()=%s returns %r' % (labs[0][1], ret)
-        rep.check(ok, 'WIRE', 'Fq2::sgn0', 'sgn0 of the first non-zero coefficient, real part first', why, fx.fn(p)['span'], construct=p)
+        import inline as INL
+        import tt
+        I = exp.Interp(fx, 'none', extra_transfer=tr, inline=lambda q: INL.is_private_helper(fx, q))
+        I.fork_inlined = True
+        ok, why = True, ''
+        try:
+            res = I.run(p, [('byref', Agg(['c0', 'c1']))])
+            keys = [('is_zero_c', 0), ('is_zero_c', 1)]
+            for k_ in tt.predicates(res):
+                if k_ not in keys:
+                    ok, why = False, 'branches on %r (expected zero tests of the coefficients)' % (k_,)
+            for z0 in (False, True):
+                for z1 in (False, True):
+                    if not ok:
+                        break
+                    env = {keys[0]: z0, keys[1]: z1}
+                    cons = []
+                    for pth, ret, _ in res:
+                        lits = tt.path_literals(pth)
+                        if all(env.get(k_) == t_ for k_, t_, _l in lits if k_ in env):
+                            cons.append(ret)
+                    want = [('sgn0_of', 0)] if not z0 else ([('sgn0_of', 1)] if not z1 else [('sgn0_of', 0), ('sgn0_of', 1)])
+                    if len(cons) != 1 or cons[0] not in want:
+                        ok, why = False, 'c0 %s zero, c1 %s zero: returns %r, expected sgn0 of %s' % ('is' if z0 else 'is not', 'is' if z1 else 'is not', cons, 'c0' if not z0 else 'c1')
+        except (exp.NotDerivable, exp.Budget) as e:
+            ok, why = False, 'not derivable: %s' % e
+        rep.check(ok, 'WIRE', 'Fq2::sgn0', 'sgn0 of the first non-zero coefficient, real part first (truth table over the zero tests)', why, fx.fn(p)['span'], construct=p)
     # negate_if: negate exactly under Negative
     p = 'signum::Signum0::negate_if'
     b = fx.body(p)
@@ -313,14 +331,16 @@ def rule_fq2_order(fx, rep):
     where = fx.fn(p)['span']
 
     def comp_pair(fr, t):
+        # which coefficient of self / of other the two operands are: by value (the operands carry named coefficients),
+        # so the comparison may sit in a closure or a helper
         out = []
         for k, a in enumerate(t['args']):
-            ref = fr.res.operand_referent(a)
-            if ref and ref[0] == 'place' and ref[1]['l'] == k + 1:
-                fs = [e[1] for e in ref[1]['p'] if e[0] == 'f']
-                out.append(fs[0] if len(fs) == 1 else None)
-            else:
-                out.append(None)
+            v = fr.deref_operand(a)
+            for _ in range(4):
+                if isinstance(v, exp.Ref):
+                    v = fr._project(fr.store.get(v.root, TOP), v.proj)
+            want = 'so'[k] if k < 2 else '?'
+            out.append(int(v[1]) if isinstance(v, str) and len(v) == 2 and v[0] == want and v[1] in '01' else None)
         return tuple(out)
 
     # all nine outcomes of (cmp(c1, c1'), cmp(c0, c0')): the result is the c1 ordering unless that is Equal, then the c0 ordering
@@ -346,7 +366,7 @@ def rule_fq2_order(fx, rep):
             I = exp.Interp(fx, 'none', extra_transfer=tr, inline=lambda q: q == p)
             I.fork_inlined = True
             try:
-                res = I.run(path, [('byref', Agg(['c0', 'c1'])), ('byref', Agg(['c0', 'c1']))])
+                res = I.run(path, [('byref', Agg(['s0', 's1'])), ('byref', Agg(['o0', 'o1']))])
             except (exp.NotDerivable, exp.Budget) as e:
                 bad.append('not derivable: %s' % e)
                 break
@@ -404,7 +424,7 @@ def rule_fq2_order(fx, rep):
             I = exp.Interp(fx, 'none', extra_transfer=tr, inline=lambda q: q in (p, pp))
             I.fork_inlined = True
             try:
-                res = I.run(opath, [('byref', Agg(['c0', 'c1'])), ('byref', Agg(['c0', 'c1']))])
+                res = I.run(opath, [('byref', Agg(['s0', 's1'])), ('byref', Agg(['o0', 'o1']))])
             except (exp.NotDerivable, exp.Budget) as e:
                 bad.append('%s: not derivable: %s' % (opn, e))
                 break
